@@ -62,10 +62,10 @@ CHECKS["C12"] = dict(
 CHECKS["C15"] = dict(
     text="Clause 1 proved: trim_candles on a time-ordered list = filter (ts >= newest - lifespan), the newest candle always survives, and "
          "after every construction/append of a manager the retained candles are exactly that window of the collapsed (and filled) "
-         "candles. Correspondence: manager with lifespan, all timeframe/fill variants; falsifier compares with an untrimmed twin fed the "
-         "same schedule after every append.",
-    note="Clause 2 (readings unchanged while the look-back is retained) is decided by the falsifier against an untrimmed twin (added with "
-         "the indicator engine); no theorem yet. Axioms: none.",
+         "candles. Correspondence: manager with lifespan, all timeframe/fill variants (check_mgr) and every indicator kind fed candle by "
+         "candle under a lifespan that always keeps its look-back (check_ind); falsifier: window against an untrimmed twin after every "
+         "append, and readings on the retained candles equal to the untrimmed twin's for all 27 kinds.",
+    note="Clause 2 (readings unchanged while the look-back is retained) is decided by correspondence + falsifier; no theorem yet. Axioms: none.",
     technique="Coq proof (drop-while = filter on sorted lists) + vm_compute correspondence + falsifier",
     design="5/C15")
 
